@@ -262,6 +262,10 @@ def build_doc(spec):
     for c in spec.get("am_cells", []):
         cell = neuroml.Cell(id=c.get("id"))
         cell.morphology = make_am(c.get("n", 3), c.get("mid"))
+        for k in c.get("edited", []):
+            seg = cell.morphology.segments[k]
+            seg.name = "edited_by_user_%d" % k
+            cell.morphology.segments[k] = seg  # user-assigned: lives in the view's own table
         doc.cells.append(cell)
     for m in spec.get("am_morphs", []):
         doc.morphology.append(make_am(m.get("n", 3), m.get("mid")))
@@ -344,8 +348,12 @@ def dump(o, depth=0):
             d["items"] = [dump(x, depth + 1) for x in o]
         elif is_view_container(o):
             # a list-like view computed from arrays (arraymorph.SegmentList ...): what iterating it yields; its own
-            # fields are caches / back references / iteration state
-            d["items"] = [dump(x, depth + 1) for x in o]
+            # fields are caches / back references / iteration state.  Very long views are not walked (the walk itself
+            # would instantiate every element): their user-assigned entries are watched instead, see watch_views().
+            if len(o) > 2000:
+                d["items"] = "<%d entries; user-assigned entries are watched separately>" % len(o)
+            else:
+                d["items"] = [dump(x, depth + 1) for x in o]
             return d
         for k, v in sorted(vars(o).items()):
             if k in SKIP or v is None or (isinstance(v, list) and not v) or (k == "cursor" and isinstance(o, OptimizedList)):
@@ -363,6 +371,33 @@ def is_view_container(o):
     t = type(o)
     return (t.__module__ in ("neuroml.arraymorph",) and hasattr(t, "__getitem__") and hasattr(t, "__len__")
             and not hasattr(t, "member_data_items_"))
+
+
+def watch_views(doc):
+    """the entries a user assigned into the list-like views of the document (SegmentList.__setitem__ keeps them in
+    its table): [(view, index, dump)] taken WITHOUT walking the view"""
+    out = []
+    if not isinstance(doc, neuroml.NeuroMLDocument):
+        return out
+    for cell in getattr(doc, "cells", []):
+        segs = getattr(getattr(cell, "morphology", None), "segments", None)
+        tab = getattr(segs, "instantiated_segments", None)
+        if isinstance(tab, dict):
+            for k in sorted(tab)[:50]:
+                out.append((segs, k, json.dumps(dump(tab[k]), sort_keys=True, default=str)))
+    return out
+
+
+def watched_changes(watch):
+    bad = []
+    for view, k, before in watch:
+        try:
+            now = json.dumps(dump(view[k]), sort_keys=True, default=str)
+        except BaseException as e:  # noqa: BLE001
+            now = "<%s>" % type(e).__name__
+        if now != before:
+            bad.append({"index": k, "before": before[:200], "after": now[:200]})
+    return bad
 
 
 def jdump(o):
@@ -540,6 +575,7 @@ def observe(op, fault_at, kind):
     """one run of op.call() with the fault plan; returns the observation record"""
     op.prepare()
     before = jdump(op.doc) if op.doc is not None else None
+    watch = watch_views(op.doc)
     base_t, base_fd = open_tables(), open_fds(op.tmp)
     INJ.reset(fault_at, kind)
     rec = {"k": fault_at, "kind": kind}
@@ -582,6 +618,10 @@ def observe(op, fault_at, kind):
     rec["doc_changed"] = before != after
     if rec["doc_changed"]:
         rec["doc_diff"] = first_diff(before, after)
+    lost = watched_changes(watch)
+    if lost:
+        rec["doc_changed"] = True
+        rec["doc_diff"] = {"user_assigned_entries_changed": lost[:3], "count": len(lost)}
     # retry on the same document, cause removed
     if rec["raised"] and (INJ.fired is not None or fault_at is None):
         op.after_call()
@@ -801,10 +841,111 @@ def run_truncate(spec):
         shutil.rmtree(tmp, ignore_errors=True)
 
 
+def run_config(specs):
+    """plain (unfaulted) runs of operations; what each produced, with list order kept (documents as ordered dumps,
+    written XML as text) - compared by the check across interpreter configurations"""
+    out = []
+    for spec in specs:
+        tmp = tempfile.mkdtemp(prefix="c08c_")
+        try:
+            op = Op(spec, tmp)
+            op.prepare()
+            INJ.reset(None)
+            INJ.active = False
+            try:
+                with contextlib.redirect_stderr(io.StringIO()):
+                    res = op.call()
+                op.after_call()
+                o = op.output(res)
+                if o is None and op.op.startswith("h5_write"):
+                    o = jdump(loaders.NeuroMLHdf5Loader.load(op.path("out.nml.h5")))
+                out.append({"op": spec["op"], "output": o})
+            except BaseException as e:  # noqa: BLE001
+                out.append({"op": spec["op"], "output": "<raised %s>" % type(e).__name__})
+        finally:
+            cleanup_handles()
+            shutil.rmtree(tmp, ignore_errors=True)
+    return out
+
+
+def run_repeat(spec):
+    """MANY failed reads in one process, then the intact input: it must load, and as in a process that saw no failure"""
+    n = spec.get("n", 40)
+    tmp = tempfile.mkdtemp(prefix="c08r_")
+    res = {"n": n, "cases": []}
+    try:
+        INJ.active = False
+        d = build_doc(spec["doc"])
+        incs = spec["doc"].get("includes", [])
+        for h in incs:
+            inc = build_doc({"id": "inc_" + h.replace(".", "_"), "iaf": 1})
+            inc.iaf_cells[0].id = "iaf_" + h.replace(".", "_")
+            writers.NeuroMLWriter.write(inc, os.path.join(tmp, h))
+        full = os.path.join(tmp, "full.nml")
+        writers.NeuroMLWriter.write(d, full)
+        data = open(full, "rb").read()
+        h5 = os.path.join(tmp, "full.nml.h5")
+        writers.NeuroMLHdf5Writer.write(build_doc(dict(spec["doc"], includes=[])), h5)
+        not_nml = os.path.join(tmp, "other.h5")
+        writers.ArrayMorphWriter.write(make_am(4, "m0"), not_nml)
+        dangling = os.path.join(tmp, "dangling.nml")
+        dd = build_doc(dict(spec["doc"], includes=["does_not_exist.nml"]))
+        writers.NeuroMLWriter.write(dd, dangling)
+        text = data.decode()
+        body = text[text.index("<neuroml"):]
+        cut = os.path.join(tmp, "cut.nml")
+        cleanup_handles()
+
+        def attempt(fn):
+            try:
+                with contextlib.redirect_stderr(io.StringIO()):
+                    return ["ok", jdump(fn())]
+            except BaseException as e:  # noqa: BLE001
+                return ["raised", "%s: %s" % (type(e).__name__, str(e)[:160])]
+            finally:
+                cleanup_handles()
+
+        def truncated_file(i):
+            k = 20 + (i * 37) % max(1, len(data) - 40)
+            with open(cut, "wb") as f:
+                f.write(data[:k])
+            return loaders.read_neuroml2_file(cut, include_includes=True)
+
+        kinds = [
+            ("truncated-xml-file", truncated_file, lambda: loaders.read_neuroml2_file(full, include_includes=True)),
+            ("truncated-xml-string", lambda i: loaders.read_neuroml2_string(body[:30 + (i * 41) % max(1, len(body) - 60)], base_path=tmp),
+             lambda: loaders.read_neuroml2_string(body, include_includes=True, base_path=tmp)),
+            ("missing-include", lambda i: loaders.read_neuroml2_file(dangling, include_includes=True),
+             lambda: loaders.read_neuroml2_file(full, include_includes=True)),
+            ("not-a-neuroml-hdf5-file", lambda i: loaders.NeuroMLHdf5Loader.load(not_nml), lambda: loaders.NeuroMLHdf5Loader.load(h5)),
+            ("truncated-xml-file-loader", lambda i: (truncated_file(i) and None) or loaders.NeuroMLLoader.load(cut),
+             lambda: loaders.NeuroMLLoader.load(full)),
+        ]
+        for name, failing, intact in kinds:
+            failures = 0
+            for i in range(n):
+                r = attempt(lambda: failing(i))
+                if r[0] == "raised":
+                    failures += 1
+            after = attempt(intact)
+            res["cases"].append({"kind": name, "failed_reads": failures, "after": after})
+    finally:
+        cleanup_handles()
+        shutil.rmtree(tmp, ignore_errors=True)
+    return res
+
+
 def main():
     payload = json.loads(sys.stdin.read() or "{}")
     install()
     out = {"ops": [], "truncate": []}
+    if "config_cases" in payload:
+        out["config"] = run_config(payload["config_cases"])
+    if "repeat" in payload:
+        try:
+            out["repeat"] = run_repeat(payload["repeat"])
+        except Exception:
+            out["repeat"] = {"harness_error": traceback.format_exc()[-1500:]}
     for spec in payload.get("ops", []):
         try:
             out["ops"].append(run_op(spec))
